@@ -128,9 +128,11 @@ def run(ctx):
                "errors are exception_ptr carrying a tagged exception")
     rep.assume("leaf outcomes: inline value/error/done or deferred with any channel; deferred leaves react to stop by ignoring it or completing with done; "
                "one external stop request per behaviour at any quiescent point (thorough: also inside a leaf's start())")
-    cat = catalogue.catalogue(ctx.tier, 1, prop)      # the catalogue is fixed per tier (VERIF_SEED only drives sampling of behaviours)
+    # the catalogue is fixed per tier (VERIF_SEED only drives sampling of behaviours).  C20 rebuilds all factories once per
+    # configuration (thorough: eight), so it always uses the curated catalogue: every second shape in quick, all in thorough
+    cat = catalogue.catalogue("quick" if prop == "C20" else ctx.tier, 1, prop)
     if prop == "C20" and ctx.quick:
-        cat = cat[::2]                           # every second shape: each configuration is a full rebuild of all factories
+        cat = cat[::2]
     shapes = [s["spec"] for s in cat]
     by_id = {s["spec"]["id"]: s for s in cat}
     sp = os.path.join(ctx.work, "shapes.json")
